@@ -105,7 +105,10 @@ def gen_chain(rng, nver):
                 recs.add(_gen_rec(rng))
             elif r < 0.8:
                 victim = rng.choice(sorted(recs))
-                if victim != ("@", "NS", 300, "ns1"):
+                # (a zone always keeps its apex NS rrset: a zone consisting of the SOA alone is not
+                # a valid zone, and its AXFR-style form [SOA, SOA] is indistinguishable from an
+                # empty incremental answer)
+                if not (victim[0] == "@" and victim[1] == "NS" and sum(1 for x in recs if x[0] == "@" and x[1] == "NS") == 1):
                     recs.discard(victim)
             else:
                 # delete a whole node
